@@ -278,6 +278,75 @@ theorem pyNe_eq_not {c : CmpCfg} (hE : ∀ f, f ∈ c.elNe ↔ f ∈ c.elEq) (hI
     (a b : Sp) : pyNe c a b = !pyEq c a b := by
   cases a <;> cases b <;> simp [pyNe, pyEq, elNe_eq_not hE, isoNe_eq_not hE hI]
 
+
+/-! ### certificates -/
+
+theorem idxOk_sound {F : Nat → Option Nat} :
+    ∀ {l : List Nat} {p : Nat}, idxOk F p l = true → ∀ (i : Nat) (h : i < l.length), F l[i] = some (p + i)
+  | [], _, _, i, h => absurd h (Nat.not_lt_zero i)
+  | k :: ks, p, hok, i, h => by
+    simp only [idxOk, Bool.and_eq_true] at hok
+    cases i with
+    | zero =>
+      cases hF : F k with
+      | none => simp [hF] at hok
+      | some v =>
+        have : v.beq p = true := by simpa [hF] using hok.1
+        simp [hF, nbeq.mp this]
+    | succ j =>
+      have := idxOk_sound hok.2 j (by simpa using h)
+      simpa [Nat.add_assoc, Nat.add_comm 1 j] using this
+
+/-- if some function sends the `i`-th entry to `p + i`, the entries are pairwise different -/
+theorem nodup_of_idxOk {F : Nat → Option Nat} {l : List Nat} {p : Nat} (h : idxOk F p l = true) : l.Nodup := by
+  rw [List.nodup_iff_injective_get]
+  intro i j hij
+  have hi := idxOk_sound h i.1 i.2
+  have hj := idxOk_sound h j.1 j.2
+  simp only [List.get_eq_getElem] at hij
+  rw [hij, hj] at hi
+  have : p + j.1 = p + i.1 := Option.some.inj hi
+  exact Fin.ext (by omega)
+
+theorem subseqB_sound {α : Type} {eq : α → α → Bool} (heq : ∀ a b, eq a b = true → a = b) :
+    ∀ {a b : List α}, subseqB eq a b = true → ∀ x ∈ a, x ∈ b
+  | [], _, _, x, hx => by simp at hx
+  | _ :: _, [], h, _, _ => by simp [subseqB] at h
+  | x :: xs, y :: ys, h, z, hz => by
+    simp only [subseqB] at h
+    by_cases hxy : eq x y = true
+    · rw [if_pos hxy] at h
+      have hx := heq x y hxy
+      rcases List.mem_cons.mp hz with rfl | hz'
+      · simp [hx]
+      · exact List.mem_cons_of_mem _ (subseqB_sound heq h z hz')
+    · rw [if_neg hxy] at h
+      exact List.mem_cons_of_mem _ (subseqB_sound heq h z hz)
+
+/-- any oracle that maps every key of every object to that object certifies collision-freeness -/
+theorem collisionFree_of_oracle {α : Type} {keys : α → List Nat} {objs : List α} (f : Nat → Option α)
+    (h : ∀ o ∈ objs, ∀ k ∈ keys o, f k = some o) : CollisionFree keys objs := by
+  intro a ha b hb k hka hkb
+  have h1 := h a ha k hka
+  rw [h b hb k hkb] at h1
+  exact (Option.some.inj h1).symm
+
+/-- species whose names differ compare unequal, as soon as `name` is among the compared fields of both classes -/
+theorem pyEq_false_of_name_ne {c : CmpCfg} (hE : EField.name ∈ c.elEq) (hI : IField.inh .name ∈ c.isoEq)
+    {a b : Sp} (h : a.base.name ≠ b.base.name) : pyEq c a b = false := by
+  have hn : ∀ x y : El, x.name ≠ y.name → elEq c x y = false := by
+    intro x y hxy
+    simp only [elEq, List.all_eq_false]
+    refine ⟨.name, hE, ?_⟩
+    simp [efEq, nbeq, hxy]
+  cases a <;> cases b <;> simp only [pyEq, Sp.base] at *
+  · exact hn _ _ h
+  · exact hn _ _ h
+  · exact hn _ _ (fun e => h e.symm)
+  · simp only [isoEq, List.all_eq_false]
+    refine ⟨.inh .name, hI, ?_⟩
+    simp [ifEq, efEq, nbeq, h]
+
 /-! ### weights -/
 
 /-- the integer test `weightNear` is `|w − A| ≤ 1/10` for the rational `w = wNum / wDen` -/
